@@ -796,7 +796,47 @@ func rulePanicTable(c *core.Ctx) {
 						return true
 					}
 				}
-				o.Require(ci == "cipherRC4" || ci == "cipherAES", "crypt filter created with cipher %s", ci)
+				if ci != "cipherRC4" && ci != "cipherAES" {
+					// a local or a field of a local struct that is only ever given one of the two
+					target := strings.ReplaceAll(ci, " ", "")
+					var vals []string
+					unknown := false
+					ast.Inspect(fn.Decl, func(k ast.Node) bool {
+						as, isAs := k.(*ast.AssignStmt)
+						if !isAs || len(as.Lhs) != len(as.Rhs) {
+							return true
+						}
+						for i, l := range as.Lhs {
+							if strings.ReplaceAll(core.ExprStr(l), " ", "") != target {
+								continue
+							}
+							if id, isID := ast.Unparen(as.Rhs[i]).(*ast.Ident); isID {
+								if _, isConst := info.ObjectOf(id).(*types.Const); isConst {
+									vals = append(vals, id.Name)
+									continue
+								}
+							}
+							unknown = true
+						}
+						return true
+					})
+					good := len(vals) > 0 && !unknown
+					for _, v := range vals {
+						if v != "cipherRC4" && v != "cipherAES" {
+							good = false
+							o.FailAt(fn.Site(cl, ""), "crypt filter created with cipher %s, which can be %s", ci, v)
+						}
+					}
+					if good {
+						o.Fact("cipher %s is only ever given %v", ci, vals)
+						return true
+					}
+					if len(vals) == 0 || unknown {
+						o.Unrec("%s: crypt filter created with cipher %s: the values it can take were not collected", c.Prog.Pos(cl.Pos()), ci)
+						return true
+					}
+					return true
+				}
 				return true
 			})
 		}
@@ -1060,6 +1100,13 @@ func rulePeekDiscardPre(c *core.Ctx) {
 					continue
 				}
 				if !nonNeg(fn, cv.V, arg, 2) {
+					if sel, isSel := ast.Unparen(arg).(*ast.SelectorExpr); isSel {
+						if s := fn.Info().Selections[sel]; s != nil && s.Kind() == types.FieldVal {
+							// a count kept in a field of a struct: its definitions are not followed
+							o.Unrec("%s: Discard(%s): the count is kept in a struct field, whether it is non-negative is not followed", c.Prog.Pos(cv.Call.Pos()), core.ExprStr(arg))
+							continue
+						}
+					}
 					o.FailAt(fn.Site(cv.Call, ""), "Discard(%s) is not dominated by a check that the count is non-negative", core.ExprStr(arg))
 				}
 			}
